@@ -38,6 +38,8 @@ type Scenario struct {
 	// ReadFailChoice: the scheduler may choose read_fail(t) (once per execution): the next store read of request t fails
 	// with a transient error. Replayed on the model (AResumeReadFail), unlike the scenario-wide switch above.
 	ReadFailChoice bool `json:"allow_read_fail,omitempty"`
+	// Close: the scheduler may shut the commander down gracefully once (Commander.Close): close / close_ok / close_fail
+	Close bool `json:"allow_close,omitempty"`
 	// Directed: schedules given by choice names ("start(1)", "cancel(1)", "persist_ok(-1)"; "resume(0)*" = as long as
 	// that choice is enabled), executed (and replayed on the model) before the search; once a script is used up the
 	// first enabled choice is taken
@@ -103,6 +105,7 @@ func runDirected(sc Scenario, prefix []int, script []string, keepTrace bool) Exe
 	s := engx.New(disk, sc.Reqs)
 	s.AllowFail, s.AllowCrash, s.AllowCancel, s.AllowFailCtx = sc.Fail, sc.Crash, sc.Cancel, sc.FailCtx
 	s.AllowReadFail = sc.ReadFailChoice
+	s.AllowClose = sc.Close
 	if len(sc.ReadFail) > 0 {
 		s.ReadFail = map[string]bool{}
 		for _, k := range sc.ReadFail {
@@ -1005,6 +1008,30 @@ func scenarios() []Scenario {
 		// oracle only
 		{Name: "read-failure-first-region", Setup: []engx.Req{fund("alice", 300), xfer(10, "alice", "bob"), meta}, ReadFail: []string{"tx", "account"}, Budget: 40,
 			Reqs: []engx.Req{{Kind: "delmeta", Target: "TRANSACTION", TargetID: "1", Key: "a"}, viaMeta}},
+		// graceful shutdown (Commander.Close): the batch inside the store call is written (close_ok) or fails (close_fail),
+		// nobody is acknowledged, what is queued behind it is dropped, the next generation boots from the disk
+		{Name: "close-batch-and-queue", Setup: []engx.Req{fund("alice", 100)}, Close: true, Budget: 80,
+			Reqs: []engx.Req{xfer(10, "alice", "bob"), fund("carol", 5), metaA},
+			Directed: [][]string{
+				{"start(0)", "resume(0)*", "start(1)", "resume(1)*", "start(2)", "resume(2)*", "close_ok(-1)"},
+				{"start(0)", "resume(0)*", "start(1)", "resume(1)*", "start(2)", "resume(2)*", "close_fail(-1)"},
+				{"start(0)", "resume(0)", "resume(0)", "start(1)", "close(-1)", "start(2)", "resume(2)*", "persist_ok(-1)", "resume(2)*"},
+				{"start(0)", "resume(0)*", "persist_ok(-1)", "start(1)", "resume(1)*", "close_ok(-1)", "start(2)", "resume(2)*", "persist_ok(-1)", "resume(2)*"},
+			}},
+		{Name: "close-then-same-key", Setup: []engx.Req{fund("alice", 100)}, Close: true, Budget: 80,
+			Reqs: []engx.Req{ik(ref(xfer(10, "alice", "bob"), "r40"), "k40"), ik(ref(xfer(10, "alice", "bob"), "r40"), "k40"), fund("carol", 5)},
+			Directed: [][]string{
+				{"start(2)", "resume(2)*", "start(0)", "resume(0)*", "close_ok(-1)", "start(1)", "resume(1)*", "persist_ok(-1)", "resume(1)*"}, // dropped: the retry commits
+				{"start(0)", "resume(0)*", "close_ok(-1)", "start(1)", "resume(1)*"},                                                       // written, never acknowledged: the retry replays
+				{"start(0)", "resume(0)*", "close_fail(-1)", "start(1)", "resume(1)*", "persist_ok(-1)", "resume(1)*"},
+			}},
+		{Name: "close-during-revert", Setup: []engx.Req{fund("alice", 100), xfer(40, "alice", "bob")}, Close: true, Budget: 80,
+			Reqs: []engx.Req{{Kind: "revert", RevertID: 1}, {Kind: "revert", RevertID: 1}},
+			Directed: [][]string{
+				{"start(0)", "resume(0)*", "close_fail(-1)", "start(1)", "resume(1)*", "persist_ok(-1)", "resume(1)*"},
+				{"start(0)", "resume(0)*", "close_ok(-1)", "start(1)", "resume(1)*"},
+				{"start(0)", "resume(0)", "resume(0)", "close(-1)", "start(1)", "resume(1)*", "persist_ok(-1)", "resume(1)*"},
+			}},
 		{Name: "crash-points", Setup: []engx.Req{fund("alice", 100)}, Crash: true, Fail: true, Reqs: []engx.Req{
 			ik(xfer(10, "alice", "bob"), "k3"), ik(xfer(10, "alice", "bob"), "k3"),
 			{Kind: "delmeta", Target: "ACCOUNT", TargetID: "alice", Key: "a"}}},
@@ -1087,6 +1114,10 @@ func (n *names) action(c engx.Choice, reqs []engx.Req, off int) string {
 		return fmt.Sprintf("ACancel %d", c.Tid+off)
 	case "read_fail":
 		return fmt.Sprintf("AResumeReadFail %d", c.Tid+off)
+	case "close", "close_fail":
+		return "AClose"
+	case "close_ok":
+		return "ACloseOk"
 	case "persist_ok":
 		return "APersistOk"
 	case "persist_fail":
@@ -1179,8 +1210,8 @@ func coqCase(sc Scenario, ex Exec) string {
 		}
 	}
 	j := func(xs []string) string { return "[" + strings.Join(xs, ";\n      ") + "]" }
-	return fmt.Sprintf("{| ec_setup := %s;\n   ec_reqs := %s;\n   ec_allow_fail := %v; ec_allow_crash := %v; ec_max_crashes := 1;\n   ec_allow_cancel := %v; ec_max_cancels := 1;\n   ec_allow_read_fail := %v; ec_max_read_fails := 1; ec_meta_readers := [%s];\n   ec_steps := %s;\n   ec_final_choices := %d;\n   ec_disk := %s;\n   ec_resps := %s;\n   ec_events := %s |}",
-		j(setup), j(reqs), sc.Fail, sc.Crash, sc.Cancel, sc.ReadFailChoice, strings.Join(metaReaders, "; "), j(steps), ex.FinalCount, j(disk), j(resps), j(events))
+	return fmt.Sprintf("{| ec_setup := %s;\n   ec_reqs := %s;\n   ec_allow_fail := %v; ec_allow_crash := %v; ec_max_crashes := 1;\n   ec_allow_cancel := %v; ec_max_cancels := 1;\n   ec_allow_close := %v; ec_allow_read_fail := %v; ec_max_read_fails := 1; ec_meta_readers := [%s];\n   ec_steps := %s;\n   ec_final_choices := %d;\n   ec_disk := %s;\n   ec_resps := %s;\n   ec_events := %s |}",
+		j(setup), j(reqs), sc.Fail, sc.Crash, sc.Cancel, sc.Close, sc.ReadFailChoice, strings.Join(metaReaders, "; "), j(steps), ex.FinalCount, j(disk), j(resps), j(events))
 }
 
 func (n *names) ledgerPostings(ps ledger.Postings) string {
